@@ -36,6 +36,13 @@ end R
 
 abbrev Bytes := List UInt8
 
+instance {ε α : Type} [DecidableEq ε] [DecidableEq α] : DecidableEq (Except ε α) := fun a b =>
+  match a, b with
+  | .ok x, .ok y => if h : x = y then isTrue (by rw [h]) else isFalse (by intro h'; cases h'; exact h rfl)
+  | .error x, .error y => if h : x = y then isTrue (by rw [h]) else isFalse (by intro h'; cases h'; exact h rfl)
+  | .ok _, .error _ => isFalse (by intro h; cases h)
+  | .error _, .ok _ => isFalse (by intro h; cases h)
+
 /-- Go `code[i]` (value as a natural number below 256). -/
 def idx (code : Bytes) (i : Nat) : R Nat :=
   match code[i]? with
